@@ -307,6 +307,8 @@ def widget_spec(styles=("kitty", "kitty", "kitty", "iterm2", "iterm2", "block"))
         "img": gen.still_image(max_w=6, max_h=6, modes=["RGB", "RGBA", "L", "P"]),
         "upscale": st.booleans(),
         "fmt": st.sampled_from(["", "", "<", ">", ".^", "._", "<.^", ">._"]),
+        # style-specific part of the format spec (graphics styles only; LINES is needed for trimming)
+        "sfmt": st.sampled_from(["", "", "+L", "+L", "+Lc1", "+Lm1"]),
     })
 
 
@@ -390,7 +392,8 @@ def make_widget(spec, force):
         style = "iterm2"
     cls = {"kitty": I.KittyImage, "iterm2": I.ITerm2Image, "block": I.BlockImage}[style]
     image = cls(gen.build_image(spec["img"]))
-    return W.UrwidImage(image, spec["fmt"], upscale=spec["upscale"]), style
+    fmt = spec["fmt"] + (spec.get("sfmt", "") if style != "block" else "")
+    return W.UrwidImage(image, fmt, upscale=spec["upscale"]), style
 
 
 def build(node, ctx, pool):
@@ -715,6 +718,10 @@ class Lab:
         if not self.vt.in_ground():
             self.fail(f"draw_screen() that raised left the parser in state {self.vt.parser_state()}", {"kind": "parser", "after": "bad_draw"})
         self.flags.add("bad_draw")
+        # a draw_screen() call that the caller got wrong (ValueError) is not a redraw of the property's
+        # histories; what is on the terminal afterwards is only judged for left-over images until the next
+        # full repaint
+        self.allow_missing = True
 
     # ---------------------------------------------------------------------------------- the redraw
     def redraw(self):
